@@ -256,6 +256,13 @@ func c12RestartChild(dir string, dieAt int, busy bool) int {
 		vsched.EffectHook = nil
 		r.StartupEffects = count
 		r.IDsAfter, r.TmpAfter, r.OtherAfter = ListDir(dir)
+		if ents, err := os.ReadDir(os.TempDir()); err == nil {
+			for _, e := range ents {
+				if strings.HasPrefix(e.Name(), "crl_") && strings.HasSuffix(e.Name(), "_tmp") {
+					r.TmpAfter = append(r.TmpAfter, "$TMPDIR/"+e.Name())
+				}
+			}
+		}
 		var out []string
 		for _, pr := range c.probes {
 			out = append(out, w.Lookup(pr, world.Chain(pr, c.p.CA, c.p.Root)).String())
@@ -294,6 +301,23 @@ func c12RestartChild(dir string, dieAt int, busy bool) int {
 func c12Exec(args ...string) (string, error) {
 	cmd := exec.Command(os.Args[0], append([]string{"C12", "--tier", "worker", "--"}, args...)...)
 	cmd.Env = append(os.Environ(), "GOMAXPROCS=2")
+	// the crashing run and the restarts over its image share a private system temp directory (what the validator puts
+	// there is as much a left-over as what it puts into the work_dir)
+	for _, a := range args {
+		if strings.HasPrefix(a, Scratch()) {
+			base := a
+			for _, suffix := range []string{".busy", ".image"} {
+				base = strings.TrimSuffix(base, suffix)
+			}
+			if i := strings.LastIndex(base, ".r"); i > 0 && !strings.Contains(base[i:], "/") {
+				base = base[:i]
+			}
+			td := base + ".systmp"
+			os.MkdirAll(td, 0755)
+			cmd.Env = append(cmd.Env, "TMPDIR="+td)
+			break
+		}
+	}
 	b, err := cmd.Output()
 	return string(b), err
 }
@@ -352,6 +376,7 @@ func RunC12(tier string, args []string) int {
 			}
 		}
 		os.RemoveAll(dir)
+		os.RemoveAll(dir + ".systmp")
 		n := 0
 		for _, l := range strings.Split(out, "\n") {
 			if strings.HasPrefix(l, "EFFECTS ") {
@@ -406,6 +431,7 @@ func RunC12(tier string, args []string) int {
 			os.RemoveAll(dir)
 			os.MkdirAll(dir, 0755)
 			defer os.RemoveAll(dir)
+			defer os.RemoveAll(dir + ".systmp")
 			_, err := c12Exec("child", j.hist, dir, fmt.Sprint(j.k))
 			if err == nil {
 				// in this work_dir the history went through fewer effect points than in the counting run (possible only if
